@@ -9,7 +9,7 @@ CONSTANTS
   Net = FALSE
   IntMax = 1000
   GcBatch = 1
-  Bug = "none"
+  Bug = "GcNever"
 CONSTRAINT Bounded
-INVARIANTS TypeOK LoadCorrect LiveKept HeldSound IndexConsistent
-PROPERTIES MemGcProgress FileGcComplete OnlyExpiredVanish
+
+PROPERTIES MemGcProgress
